@@ -640,7 +640,20 @@ func VH21f_faults() {
 		}
 		return fr
 	}
-	fault := verif.Choice("fault", 5)
+	fault := verif.Choice("fault", 6)
+	if fault == 5 {
+		// the very first write on a connection (the library's own handshake header) is cut short after 1, 4 or 7
+		// bytes: that connection never attaches, the listener carries on
+		c0 := L.Connect("c0")
+		c0.WriteLimit = []int{1, 4, 7}[verif.Choice("k", 3)]
+		c0.PeerSend(vnet.SPHeader(self))
+		verif.Quiesce()
+		for i := 0; i < 3 && verif.PendingTimers() > 0; i++ {
+			verif.FireTimer()
+		}
+		verif.Assert(h.attached == 0, lab+"/connection-attached-although-its-handshake-could-not-be-written")
+		verif.Assert(c0.Closed, lab+"/connection-with-failed-handshake-left-open")
+	}
 	if fault == 0 {
 		L.FailAccept(vnet.ErrReset)
 		verif.Quiesce()
@@ -704,7 +717,7 @@ func VH21f_faults() {
 	for i := 0; i < 3 && verif.PendingTimers() > 0; i++ {
 		verif.FireTimer()
 	}
-	if fault != 0 {
+	if fault != 0 && fault != 5 {
 		verif.Assert(c1.Closed, lab+"/faulty-connection-left-open")
 		verif.Assert(h.detached == 1, lab+"/faulty-connection-not-detached-exactly-once")
 		rg := verif.Go("recv-partial", func() { sock.Recv() })
@@ -730,7 +743,7 @@ func VH21f_faults() {
 	var rerr error
 	g2 := verif.Go("recv", func() { got, rerr = sock.Recv() })
 	verif.Quiesce()
-	if fault != 0 {
+	if fault != 0 && fault != 5 {
 		// the waiting Recv from above takes it: one of the two has it
 		verif.Quiesce()
 	}
@@ -742,7 +755,7 @@ func VH21f_faults() {
 	verif.Assert(sock.Send(out) == nil, lab+"/send-after-fault")
 	verif.Quiesce()
 	verif.Assert(verif.BytesEq(c2.Out[n0:], frame(out)) && len(c2.Out)-n0 == len(frame(out)), "C15/stream/frame-bytes-after-a-fault")
-	if fault == 0 {
+	if fault == 0 || fault == 5 {
 		// the first connection is healthy: it gets the message too, as one frame
 		verif.Assert(len(c1.Out) >= 8+len(frame(out)), lab+"/healthy-connection-missed-the-message")
 	}
